@@ -10,6 +10,7 @@ def run(ctx):
     invariance.rule_component_traversal(ctx)
     from . import progress
     progress.rule_maximal_result_from_search(ctx)
+    progress.rule_state_machine(ctx)
     accept.rule_running_intersection(ctx)
     progress.rule_ideal_early_exit(ctx)
     from . import dyn as _dyn
